@@ -9,7 +9,8 @@ EXPLANATION = ("C18: ring discipline of nni_lmq / nni_msgq (every cursor increme
                "next use, cursor fields are only assigned wrapped values, slot stores are guarded by len < cap and slot "
                "reads by len != 0, queue state is touched under its lock), resize drops only through the get cursor, static "
                "id maps have the documented constant ranges, id allocation is guarded by an in-use test and a wrapping "
-               "cursor that nothing but the allocator moves.")
+               "cursor that nothing but the allocator moves."
+               " Also: the allocation cursor is seeded only on first use or wrap, and resize walks the old ring with its allocation size and wraps surviving cursors with the new extent (R8).")
 
 RING = {"nni_lmq.lmq_msgs": ("nni_lmq.lmq_get", "nni_lmq.lmq_put", "nni_lmq.lmq_mask", "nni_lmq.lmq_len", "nni_lmq.lmq_cap"),
         "nni_msgq.mq_msgs": ("nni_msgq.mq_get", "nni_msgq.mq_put", "nni_msgq.mq_alloc", "nni_msgq.mq_len", "nni_msgq.mq_cap")}
